@@ -12,6 +12,12 @@ Local Open Scope res_scope.
 Module Hdr.
 Import HdrPath HdrScion HdrL4 HdrExt.
 
+(** compact notation for byte strings in generated cases: [B k n] = the [k] low-order bytes of [n],
+    most significant first (= [be k n], computed by shifting) *)
+Fixpoint unpack (k : nat) (n : N) (acc : bytes) : bytes :=
+  match k with O => acc | S k' => unpack k' (N.shiftr n 8) (N.land n 255 :: acc) end.
+Definition B (k : nat) (n : N) : bytes := unpack k n [].
+
 (** a header value of any layer *)
 Inductive hdr :=
 | HHop (h : hop)
@@ -211,10 +217,29 @@ Definition res_matches {A} (eqb : A -> A -> bool) (r : res A) (o : option A) : b
 
 (** the IPv4-mapped 16-byte host address is unmapped by PackAddr (documented there); the
     ParseAddr/PackAddr pair is only required to round-trip for the others *)
-Definition addr_exempt (l : lay) (h : hdr) : bool :=
-  match l, h with
-  | LAddr, HAddr (HostIP6 b) => is_v4mapped b
+Definition addr_exempt (l : lay) (bs : bytes) (h : hdr) : bool :=
+  match l, bs with
+  | LAddr, t :: raw =>
+    negb (Nat.eqb (length raw) (addr_len t)) ||     (* not what DecodeAddrHdr hands to ParseAddr *)
+    match h with HAddr (HostIP6 b) => is_v4mapped b | _ => false end
   | _, _ => false
+  end.
+
+(** layers whose decoder tolerates trailing bytes (and returns them as rest / payload) *)
+Definition takes_payload (h : hdr) : bool :=
+  match h with HEmpty | HSpao _ | HAddr _ => false | _ => true end.
+
+(** inputs on which scion is known to deviate from the property (see Props/C18.v):
+    SCION header whose HdrLen exceeds what address header and path occupy; UDP header whose
+    Length exceeds the data *)
+Definition known (l : lay) (bs : bytes) : bool :=
+  match l with
+  | LUdp => udp_overlong bs
+  | LScion => match scion_decode bs with
+              | Ok (h, _) => negb (Nat.eqb (scion_slack h) 0)
+              | _ => false
+              end
+  | _ => false
   end.
 
 (** ------------------------------------------------------------ correspondence cases *)
@@ -231,7 +256,7 @@ Definition aux_of (payload : bytes) : N := N.of_nat (length payload).
 (** property oracle on the implementation's observations *)
 Definition enc_oracle (fx : bool) (h : hdr) (payload : bytes) (impl : option bytes)
            (redec : option (hdr * bytes)) : bool :=
-  if wfb fx (aux_of payload) h then
+  if wfb fx (aux_of payload) h && (takes_payload h || match payload with [] => true | _ => false end) then
     match impl, redec with
     | Some _, Some (h', rest) => hdr_eqb h' (canon fx (aux_of payload) h) && bytes_eqb rest payload
     | _, _ => false
@@ -243,7 +268,7 @@ Definition dec_oracle (l : lay) (bs : bytes) (impl : option (hdr * bytes)) (rese
   | None => true
   | Some (h, rest) =>
     negb (overlong l bs) &&
-    (addr_exempt l h ||
+    (addr_exempt l bs h ||
      match reser with
      | Some e => bytes_eqb (e ++ rest) (mask l bs)
      | None => false
